@@ -10,6 +10,7 @@ package sched
 
 import (
 	"fmt"
+	"os"
 	"time"
 
 	"github.com/jmsadair/raft/verifshim/vsched"
@@ -77,6 +78,10 @@ func (s *strategy) Pick(en []*vsched.Task, cur *vsched.Task, curEnabled bool, pt
 // state keys are skipped; the only oracle is the race detector's report.
 var RaceMode bool
 
+// ScratchDir returns a fresh directory for one execution of a scenario that
+// runs on the file-backed storages.
+var ScratchDir func() string
+
 // AfterRun, if set, is called after every execution (race log inspection).
 var AfterRun func(choices []int) []*common.Violation
 
@@ -102,8 +107,19 @@ func (o *Outcome) Alternatives() []int {
 // decision 0 after the prefix).
 func RunOnce(sc *Scenario, choices []int) *Outcome {
 	out := &Outcome{}
-	c := sim.New(sc.Cfg, sim.Budget{Timeouts: 99, Elapses: 99, Beats: 99, Ticks: 99, Writes: 99, Reads: 99, LeaseReads: 99, Drops: 99, DropReplies: 99, Dups: 99, Crashes: 99, Arms: 99, Restarts: 99, Members: 99, Reorders: -1, Splits: 99, Cuts: 99, ClientTimeouts: 99, Deviations: -1})
-	defer c.Teardown()
+	cfg := sc.Cfg
+	if cfg.FileStore {
+		// the real file-backed storages, in a fresh directory per execution
+		cfg.Dir = ScratchDir()
+		defer os.RemoveAll(cfg.Dir)
+	}
+	c := sim.New(cfg, sim.Budget{Timeouts: 99, Elapses: 99, Beats: 99, Ticks: 99, Writes: 99, Reads: 99, LeaseReads: 99, Drops: 99, DropReplies: 99, Dups: 99, Crashes: 99, Arms: 99, Restarts: 99, Members: 99, Reorders: -1, Splits: 99, Cuts: 99, ClientTimeouts: 99, Deviations: -1})
+	defer func() {
+		c.Teardown()
+		if cfg.FileStore {
+			c.RemoveIntercept()
+		}
+	}()
 	var mons []monitor.Monitor
 	if sc.Monitors != nil && !RaceMode {
 		mons = sc.Monitors()
